@@ -27,7 +27,13 @@ type Run struct {
 	Viol []Viol
 	// Held: locks still held (per the lock model) when the run ended.
 	Held []string
+	// ThreadPanics: panics that escaped controlled threads.
+	ThreadPanics []string
 }
+
+// IgnoreThreadPanics: do not turn escaped panics into violations (drivers for
+// operations documented to panic).
+var IgnoreThreadPanics bool
 
 // Wedged reports whether touching the machine from cleanup could block for
 // real: a deadlock was detected or a lock was leaked. Cleanup must then leave
@@ -118,7 +124,10 @@ func Once(t *testing.T, prefix []int, body func(r *Run), cleanup func(r *Run)) *
 			r.S = vsched.Run(prefix, func() { body(r) })
 			r.Held = r.S.Held()
 			for _, p := range r.S.Panics {
-				r.Violate("panic", "panic escaped a thread: %s", p)
+				r.ThreadPanics = append(r.ThreadPanics, p)
+				if !IgnoreThreadPanics {
+					r.Violate("panic", "panic escaped a thread: %s", p)
+				}
 			}
 			if cleanup != nil {
 				cleanup(r)
@@ -151,6 +160,9 @@ type Replay struct {
 	Choices []int    `json:"choices"`
 	Labels  []string `json:"labels"`
 	Obs     string   `json:"obs"`
+	// Conflicts is the set of branch call sites in force when the schedule
+	// was recorded (choices index decisions, which depend on it).
+	Conflicts []string `json:"conflicts"`
 }
 
 func Labels(e *explore.Exec) []string {
@@ -172,9 +184,9 @@ func Init(property string) {
 	if p := os.Getenv("AMC_CONFLICT_IN"); p != "" {
 		b, err := os.ReadFile(p)
 		if err == nil {
-			var pcs []uint64
-			if json.Unmarshal(b, &pcs) == nil {
-				vsched.LoadConflicts(pcs)
+			var keys []string
+			if json.Unmarshal(b, &keys) == nil {
+				vsched.LoadConflicts(keys)
 			}
 		}
 	}
@@ -183,8 +195,7 @@ func Init(property string) {
 // Finish records the final conflict set in the report (the driver compares
 // the shards' sets and re-runs them with the union until they agree).
 func Finish(rep *kit.Report) {
-	rep.Note("conflict_pcs", vsched.ConflictPCs())
-	rep.Note("conflict_sites", vsched.ConflictSites())
+	rep.Note("conflict_pcs", vsched.ConflictKeys())
 }
 
 // Driver is one closed program to explore.
@@ -198,12 +209,23 @@ type Driver struct {
 	Check func(r *Run)
 	// Params for replay files.
 	Params any
+	// AllowPanics: panics escaping threads are expected (documented) here.
+	AllowPanics bool
+	// DeviateTo restricts costly switches to these thread names per tier (nil =
+	// unrestricted); a declared under-approximation, reported in the evidence.
+	DeviateTo map[string][]string
 }
 
 // ExploreDriver explores one driver and feeds the report. Returns stats.
 func ExploreDriver(t *testing.T, rep *kit.Report, d *Driver, prefixSig string) *explore.Stats {
 	shard, nshard := kit.Shard()
 	bound := d.Bound[kit.Tier()]
+	vsched.DeviateTo = nil
+	if d.DeviateTo != nil {
+		vsched.DeviateTo = d.DeviateTo[kit.Tier()]
+	}
+	IgnoreThreadPanics = d.AllowPanics
+	defer func() { vsched.DeviateTo = nil; IgnoreThreadPanics = false }()
 	run := func(prefix []int) *explore.Exec {
 		e := Once(t, prefix, d.Body, d.Cleanup)
 		if e.Err == "" && d.Check != nil {
@@ -223,7 +245,7 @@ func ExploreDriver(t *testing.T, rep *kit.Report, d *Driver, prefixSig string) *
 			r := e.Aux.(*Run)
 			for _, v := range r.Viol {
 				rep.Violate(prefixSig+d.Name+":"+v.Sig, v.Detail+" :: obs="+e.Obs,
-					Replay{Driver: d.Name, Params: d.Params, Bound: bound, Choices: choices(e), Labels: Labels(e), Obs: e.Obs})
+					Replay{Driver: d.Name, Params: d.Params, Bound: bound, Choices: choices(e), Labels: Labels(e), Obs: e.Obs, Conflicts: vsched.ConflictKeys()})
 			}
 			if r.S != nil {
 				rep.Add("points_hit", int64(r.S.PointsHit))
@@ -241,6 +263,9 @@ func ExploreDriver(t *testing.T, rep *kit.Report, d *Driver, prefixSig string) *
 		rep.Distinct("outcomes", d.Name+"::"+o)
 	}
 	rep.Distinct("drivers", d.Name)
+	if vsched.DeviateTo != nil {
+		rep.Note("focus:"+d.Name, fmt.Sprintf("costly switches only to threads %v", vsched.DeviateTo))
+	}
 	rep.Note("driver:"+d.Name, fmt.Sprintf("bound=%d bound_done=%d execs=%d distinct_traces=%d outcomes=%d maxdepth=%d restarts=%d budget_hit=%v conflict_sites=%d",
 		bound, st.BoundDone, st.Execs, len(st.TraceHashes), len(st.Outcomes), st.MaxDepth, st.Restarts, st.BudgetHit, vsched.ConflictSize()))
 	if st.BoundDone < bound {
@@ -267,6 +292,14 @@ func choices(e *explore.Exec) []int {
 
 // ReplayDriver re-runs one recorded schedule 3 times, checks determinism, prints the trace.
 func ReplayDriver(t *testing.T, rep *kit.Report, d *Driver, rp Replay, prefixSig string) {
+	vsched.DeviateTo = nil
+	if d.DeviateTo != nil {
+		vsched.DeviateTo = d.DeviateTo[kit.Tier()]
+	}
+	IgnoreThreadPanics = d.AllowPanics
+	defer func() { vsched.DeviateTo = nil; IgnoreThreadPanics = false }()
+	vsched.ResetConflicts()
+	vsched.LoadConflicts(rp.Conflicts)
 	var first string
 	for i := 0; i < 3; i++ {
 		e := Once(t, rp.Choices, d.Body, d.Cleanup)
